@@ -4,12 +4,19 @@
         script  <create>,<add>,<remove>,<move>,<store>   one letter per call: o ok, e error,
                 s size error, d (create only) same remote ID again; `-` = empty
         limit   <max messages per mailbox> | -
-        step    fields joined by `~`, `+` in a mailbox name is a space:
-                APPEND~mbox~hv~uv~gid (hv 0: invalid header, BAD; gid: - | bad | mbox:uid)  COPY~src~u,u~dst  MOVE~src~u,u~dst
-                EXPUNGE~mbox~u,u  CREATE~n  DELETE~n  RENAME~o~n  LIST  RESTART
+        step    fields joined by `~`, `+` in a mailbox name is a space, `%2F` the hierarchy separator; a name
+                may carry a wire tag: `@l@name` sent as an IMAP literal (same name), `@u@name` sent with its first
+                character as a modified-UTF-7 escape (the session layer's decoder refuses that: NO, nothing happens):
+                APPEND~mbox~hv~uv~gid (hv 0: invalid header, BAD; hv = 100*shape + n, `shapeLeaves`; gid: - | bad | mbox:uid)
+                COPY~src~u,u~dst  MOVE~src~u,u~dst  EXPUNGE~mbox~u,u  CREATE~n  DELETE~n  RENAME~o~n  LIST  RESTART
+                SELECT~n EXAMINE~n STATUS~n SUBSCRIBE~n UNSUBSCRIBE~n  (not commands of the model: the state is
+                unchanged, the answer is left open `*`)
         out     one word per step: <result>|<state>
                 result  ok_<uid> no no_known no_trycreate bad | ok_<src>><dst> ok_- nosel | ok no
                         | list:<names> ; state  listed=<0|1> then per mailbox /<mbox>=<uid>:<hv>.<uv>,… (or = followed by a dash), sorted
+
+   c20-shape <shape>        `hash-ok` / `hash-fails`: `leavesHashOk (shapeLeaves shape)` (compared with
+                            rfc822.GetMessageHash on the harness's literal of that shape)
 
    judge-c20-append <script> <limit> <step>… => <observed word per step>
         the statement of C20 evaluated on what the real server did (no use of the model's
@@ -18,13 +25,22 @@ import GluonModel.Model.Append
 
 -- DIALECT: c20-append DAppend.runAppend
 -- DIALECT: judge-c20-append DAppend.judgeAppend
+-- DIALECT: c20-shape DAppend.shapeHash
 namespace Gluon.Driver.DAppend
 open Gluon.Append
 
 def sortStrings (l : List String) : List String := (l.toArray.qsort (· < ·)).toList
 
-def decName (w : String) : String := w.replace "+" " "
-def encName (n : String) : String := n.replace " " "+"
+/-- the wire tag of a name word: `@l@…` / `@u@…`, none = quoted string -/
+def nameTag (w : String) : Char :=
+  match w.toList with
+  | '@' :: t :: '@' :: _ => t
+  | _ => 'q'
+def untag (w : String) : String := if nameTag w == 'q' then w else (w.drop 3).toString
+def decName (w : String) : String := ((untag w).replace "+" " ").replace "%2F" "/"
+def encName (n : String) : String := (n.replace " " "+").replace "/" "%2F"
+/-- the key of the mailbox a name word denotes in an observed state -/
+def boxKey (w : String) : String := encName (decName w)
 def nat! (s : String) : Nat := s.toNat?.getD 0
 def natList (s : String) : List Nat := if s == "-" || s == "" then [] else (s.splitOn ",").map nat!
 def showNats (l : List Nat) : String := ",".intercalate (l.map toString)
@@ -59,10 +75,33 @@ def resolveGid (s : St) (w : String) : Option Gid :=
         | some (_, id) => (s.store.lookup id).map (·.gid)
     | _ => none
 
+/-- the leaves of the harness's MIME shapes (o_append.go `c20Shapes`), as `hashBody` sees them -/
+def shapeLeaves : Nat → List Leaf
+  | 1 => [{ text := true, cte := .base64, decodes := true }]
+  | 2 => [{ text := true, cte := .base64, decodes := false }]
+  | 3 => [{ text := true, cte := .qp, decodes := true }]
+  | 4 => [{ text := true, cte := .qp, decodes := false }]
+  | 5 => [{ text := true, cte := .other, decodes := true }]
+  | 6 => [{ text := true, cte := .other, decodes := false }]
+  | 7 => [{ text := true, cte := .base64, decodes := true }, { text := false, cte := .base64, decodes := false }]
+  | 8 => [{ text := true, cte := .none, decodes := true }, { text := true, cte := .base64, decodes := false }]
+  | 11 => [{ text := false, cte := .base64, decodes := false }]
+  | 12 => [{ text := true, cte := .base64, decodes := false }]
+  | 13 => [{ text := true, cte := .base64, decodes := false }]
+  | _ => [{ text := true, cte := .none, decodes := true }]      -- 0 plain, 9 truncated multipart, 10 empty body
+
+def shapeHashOk (hv : Nat) : Bool := leavesHashOk (shapeLeaves (hv / 100))
+
+def shapeHash (args : List String) : String :=
+  match args with
+  | [w] => if leavesHashOk (shapeLeaves (nat! w)) then "hash-ok" else "hash-fails"
+  | _ => "bad-op"
+
 def parseCmd (s : St) (w : String) : Option Cmd :=
   match w.splitOn "~" with
   | ["APPEND", n, hv, uv, g] =>
-    (resolveGid s g).map fun gid => .append (decName n) { hv := nat! hv, uv := nat! uv, gid := gid, valid := nat! hv != 0 }
+    (resolveGid s g).map fun gid => .append (decName n)
+      { hv := nat! hv, uv := nat! uv, gid := gid, valid := nat! hv != 0, hashOk := shapeHashOk (nat! hv) }
   | ["COPY", a, u, d] => some (.copy (decName a) (natList u) (decName d))
   | ["MOVE", a, u, d] => some (.move (decName a) (natList u) (decName d))
   | ["EXPUNGE", a, u] => some (.expunge (decName a) (natList u))
@@ -82,7 +121,7 @@ def showRes : Res → String
   | .append (.rejected _ true) => "no_known"
   | .append (.rejected _ false) => "no"
   | .copy (.ok _ []) => "ok_-"
-  | .copy (.ok a b) => s!"ok_{showNats a}>{showNats b}"
+  | .copy (.ok a b) => s!"ok_{showNats a}>{showNats b}"      -- `a` may be empty (`moveSrcUids`): `ok_>2`
   | .copy (.no _) => "no"
   | .copy .nosel => "nosel"
   | .status none => "ok"
@@ -108,9 +147,27 @@ def showStep (c : Cmd) (r : Res) : String :=
   | .expunge _ _, .status (some .noSuchMailbox) => "nosel"
   | _, r => showRes r
 
+/-- what the session layer answers before the state layer is asked: a name the modified-UTF-7
+    decoder refuses (`decodeMailboxName`: an escape that encodes a printable ASCII character) is
+    answered NO whatever the command; the probe commands are not part of the model (state
+    unchanged, answer left open) -/
+def sessionLayer (s : St) (w : String) : Option String :=
+  match w.splitOn "~" with
+  | [op, a] =>
+    if ["SELECT", "EXAMINE", "STATUS", "SUBSCRIBE", "UNSUBSCRIBE"].contains op then some "*"
+    else if nameTag a == 'u' then some "no" else none
+  | ["RENAME", a, b] => if nameTag a == 'u' || nameTag b == 'u' then some "no" else none
+  | ["APPEND", a, _, _, _] => if nameTag a == 'u' then some "no" else none
+  | [_, src, _, dst] =>
+    if nameTag dst == 'u' then (if (getBox s.db (decName src)).isSome then some "no" else some "nosel") else none
+  | _ => none
+
 def runSteps (s : St) : List String → Option (List String)
   | [] => some []
   | w :: ws =>
+    match sessionLayer s w with
+    | some r => (runSteps s ws).map fun out => (r ++ "|" ++ showState s) :: out
+    | none =>
     match parseCmd s w with
     | none => none
     | some c =>
@@ -161,16 +218,61 @@ def hvOf (k : String) : String := (k.splitOn ".").headD ""
 
 def initObs : Obs := { listed := false, boxes := [("INBOX", []), (recKey, [])] }
 
-/-- classes of violation found at one step -/
+/-- `needle` occurs in `hay` -/
+def hasInfix (needle : List Char) : List Char → Bool
+  | [] => needle.isEmpty
+  | c :: r => needle.isPrefixOf (c :: r) || hasInfix needle r
+
+/-- a name "about" the recovery mailbox: some spelling of it, or a path that contains one -/
+def recLike (w : String) : Bool := hasInfix "recovered".toList (lower (decName w))
+
+/-- "listed exactly while non-empty" is violated: the class.  One cause has a name of its own: the
+    empty recovery mailbox is shown because LIST shows the parent of every mailbox and some mailbox
+    is (by its name) an inferior of it (`Recovered Messages/x`; CREATE refuses such a name, RENAME
+    into it is the known finding `rename-into-recovery` of C14) -/
+def listedClass (o : Obs) : String :=
+  if o.recovery.isEmpty && o.boxes.any (fun b => (recKey ++ "%2F").isPrefixOf b.1) then "listed-as-parent-of-inferior"
+  else "listed-iff-nonempty"
+
+/-- classes of violation found at one step.
+
+    Clauses of C20 as statements about the observations (no use of the model's transition function):
+    * every state: the recovery mailbox exists, is listed iff non-empty, holds no message twice;
+      no message vanishes except by EXPUNGE / DELETE of its mailbox;
+    * the content of the recovery mailbox changes only by an APPEND (which may add the handed
+      message at the end, nothing else), by a MOVE out of it answered OK (exactly the selected
+      messages leave) and by an EXPUNGE in it — no other command, whatever name it carries in
+      whatever spelling, changes it (`recovery-content-changed`);
+    * a command that names the recovery mailbox itself (its name in any letter case, sent as quoted
+      string, literal or modified UTF-7) as target of APPEND / CREATE / DELETE / RENAME / COPY / MOVE is
+      answered NO and changes nothing;
+    * APPEND answered OK: the handed bytes under the announced UID; answered NO by the remote: in the
+      recovery mailbox (every MIME shape, hashable or not);
+    * COPY / MOVE out of the recovery mailbox answered OK: every selected message IS in the
+      destination afterwards (whether or not a COPYUID announced it: the remote may have
+      de-duplicated it, which says nothing about where it is), and for MOVE has left the recovery
+      mailbox, for COPY is still there. -/
 def judgeStep (hasSize : Bool) (pre post : Obs) (step res : String) : List String × Bool :=
   let f := step.splitOn "~"
   let op := f.headD ""
+  let src := f.getD 1 ""
+  let stepUids := natList (f.getD 2 "")
+  let movedOut : Bool := op == "MOVE" && src == recKey && res.startsWith "ok_"
+  let contentOk : Bool :=
+    if op == "APPEND" then
+      post.recovery == pre.recovery ||
+        (post.recovery.length == pre.recovery.length + 1 && post.recovery.take pre.recovery.length == pre.recovery &&
+         (post.recovery.getLast?.map (·.2)) == some ((f.getD 2 "") ++ "." ++ (f.getD 3 "")))
+    else if movedOut then post.recovery == pre.recovery.filter (fun m => !stepUids.contains m.1)
+    else if op == "EXPUNGE" && src == recKey then post.recovery.all (fun m => pre.recovery.contains m)
+    else post.recovery == pre.recovery
   -- invariants of every state
   let inv : List String :=
     (if (post.box recKey).isNone then ["recovery-mailbox-missing"] else []) ++
-    (if post.listed != !post.recovery.isEmpty then ["listed-iff-nonempty"] else []) ++
+    (if post.listed != !post.recovery.isEmpty then [listedClass post] else []) ++
     (if post.recovery.any (fun m => countKey post.recovery m.2 > 1) then ["duplicate-in-recovery"] else []) ++
-    (if op != "EXPUNGE" && op != "DELETE" && pre.allKeys.any (fun k => !post.allKeys.contains k) then ["message-vanished"] else [])
+    (if op != "EXPUNGE" && op != "DELETE" && pre.allKeys.any (fun k => !post.allKeys.contains k) then ["message-vanished"] else []) ++
+    (if contentOk then [] else ["recovery-content-changed"])
   let isRec (n : String) : Bool := isRecName (decName n)
   let unchanged : Bool := pre.boxes == post.boxes
   match f with
@@ -183,46 +285,52 @@ def judgeStep (hasSize : Bool) (pre post : Obs) (step res : String) : List Strin
       (inv ++ (if (res == "bad" || res == "no_trycreate") && unchanged then [] else ["invalid-message-not-refused"]), true)
     else if res.startsWith "ok_" then
       let uid := nat! (res.drop 3).toString
-      let present := ((post.box n).getD []).contains (uid, key)
+      let present := ((post.box (boxKey n)).getD []).contains (uid, key)
       (inv ++ (if present then [] else
-        (if ((post.box n).getD []).any (·.1 == uid) then ["ok-but-other-bytes-under-uid"] else ["ok-but-not-present"])), true)
+        (if ((post.box (boxKey n)).getD []).any (·.1 == uid) then ["ok-but-other-bytes-under-uid"] else ["ok-but-not-present"])), true)
     else if res == "no_known" then
       -- answered "known recovered message": the very message must be in the recovery mailbox
       let c := countKey post.recovery key
       (inv ++ (if c ≥ 1 then [] else
         (if post.recovery.any (fun m => hvOf m.2 == hv) then ["near-duplicate-dropped"] else ["known-but-absent"])), true)
     else if res == "no" then
-      if (pre.box n).isNone then (inv, false)
+      if (pre.box (boxKey n)).isNone then (inv, recLike n)
       else if hasSize then (inv, false)      -- a size rejection or a local store fault cannot be told from the wire
       else (inv ++ (if countKey post.recovery key ≥ 1 then [] else ["rejected-not-recovered"]), true)
-    else (inv, false)
+    else (inv, recLike n)
   | ["CREATE", n] =>
-    if isRec n then (inv ++ (if res != "no" || !unchanged then ["recovery-not-protected-create"] else []), true) else (inv, false)
+    if isRec n then (inv ++ (if res != "no" || !unchanged then ["recovery-not-protected-create"] else []), true) else (inv, recLike n)
   | ["DELETE", n] =>
-    if isRec n then (inv ++ (if res != "no" || !unchanged then ["recovery-not-protected-delete"] else []), true) else (inv, false)
+    if isRec n then (inv ++ (if res != "no" || !unchanged then ["recovery-not-protected-delete"] else []), true) else (inv, recLike n)
   | ["RENAME", o, n] =>
-    if isRec o || isRec n then (inv ++ (if res != "no" || !unchanged then ["recovery-not-protected-rename"] else []), true) else (inv, false)
+    if isRec o || isRec n then (inv ++ (if res != "no" || !unchanged then ["recovery-not-protected-rename"] else []), true)
+    else (inv, recLike o || recLike n)
   | ["LIST"] =>
     let names := if res.startsWith "list:" then (res.drop 5).toString.splitOn "," else []
-    (inv ++ (if names.contains recKey != !pre.recovery.isEmpty then ["listed-iff-nonempty"] else []), !pre.recovery.isEmpty)
+    (inv ++ (if names.contains recKey != !pre.recovery.isEmpty then [listedClass pre] else []), !pre.recovery.isEmpty)
   | [mv, src, _, dst] =>
-    if (mv == "COPY" || mv == "MOVE") && src == recKey then
-      if isRec dst then (inv ++ (if res != "no" || !unchanged then ["recovery-not-protected-copy-into"] else []), true)
-      else if res.startsWith "ok_" && res != "ok_-" then
-        match (res.drop 3).toString.splitOn ">" with
-        | [a, b] =>
-          let su := natList a
-          let du := natList b
-          let srcKeys := su.filterMap (fun u => (pre.recovery.find? (·.1 == u)).map (·.2))
-          let dstBox := (post.box dst).getD []
-          -- every destination UID holds one of the selected recovered messages, and as many as announced
-          let okDst := du.all (fun u => match dstBox.find? (·.1 == u) with | some m => srcKeys.contains m.2 | none => false)
-          let okSrc := if mv == "MOVE" then su.all (fun u => !post.recovery.any (·.1 == u))
-                       else su.all (fun u => post.recovery.any (·.1 == u))
-          (inv ++ (if okDst then [] else ["move-copy-out-wrong-destination"]) ++ (if okSrc then [] else ["move-copy-out-wrong-source"]), true)
-        | _ => (inv, false)
-      else (inv, false)
+    if mv == "COPY" || mv == "MOVE" then
+      if res == "nosel" then (inv, false)      -- the source could not be selected: the command was not sent
+      else if isRec dst then (inv ++ (if res != "no" || !unchanged then ["recovery-not-protected-copy-into"] else []), true)
+      else if src == recKey && res.startsWith "ok_" then
+        -- the messages the command selected: the UIDs of the step that exist
+        let sel := pre.recovery.filter (fun m => stepUids.contains m.1)
+        let dstBox := (post.box (boxKey dst)).getD []
+        let arrived := sel.all (fun m => countKey dstBox m.2 ≥ 1)
+        let okSrc := if mv == "MOVE" then sel.all (fun m => !post.recovery.any (·.1 == m.1))
+                     else sel.all (fun m => post.recovery.contains m)
+        -- every announced destination UID holds one of the selected recovered messages
+        let announced : List String :=
+          match (res.drop 3).toString.splitOn ">" with
+          | [_, b] =>
+            if (natList b).all (fun u => match dstBox.find? (·.1 == u) with | some m => sel.any (·.2 == m.2) | none => false) then []
+            else ["move-copy-out-wrong-destination"]
+          | _ => []
+        (inv ++ announced ++ (if arrived then [] else ["move-copy-out-not-arrived"]) ++
+          (if okSrc then [] else ["move-copy-out-wrong-source"]), !sel.isEmpty)
+      else (inv, recLike dst)
     else (inv, false)
+  | [_, n] => (inv, recLike n)      -- SELECT / EXAMINE / STATUS / SUBSCRIBE / UNSUBSCRIBE: the invariants, nothing changes
   | _ => (inv, false)
 
 def judgeLoop (hasSize : Bool) (pre : Obs) (k : Nat) : List String → List String → Option (List String × Nat)
